@@ -222,6 +222,7 @@ var typeTable = map[string]reflect.Type{
 	"map": reflect.TypeOf(map[string]interface{}{}), "slice": reflect.TypeOf([]interface{}{}), "iface": reflect.TypeOf((*interface{})(nil)).Elem(),
 	"Plain9": reflect.TypeOf(Plain9{}), "UFail": reflect.TypeOf(UFail{}), "TU": reflect.TypeOf(TU{}), "CtxU": reflect.TypeOf(CtxU{}),
 	"ints": reflect.TypeOf([]int{}), "strmap": reflect.TypeOf(map[string]string{}), "CtxM": reflect.TypeOf(CtxM{}), "Fail": reflect.TypeOf(Fail{}),
+	"inners": reflect.TypeOf([]Inner{}), "wides": reflect.TypeOf([]Wide{}), "decs": reflect.TypeOf([]*Dec{}),
 }
 
 var encTypes = []string{"Node", "Holder", "Wide", "Emb", "Plain9", "Plain9", "Plain1", "Plain2", "Plain3", "Plain4", "Plain5", "Plain6", "Plain7", "Plain8", "map", "slice", "ints", "strmap", "CtxM"}
